@@ -28,7 +28,10 @@
   error code and message). `C14_decoders_null_is_empty` discharges the side condition for the decoders of C02's model; the
   reason it is needed is a real difference, recorded in `C14_stdio_null_result_witness`: the stdio transport replaces a
   `null` result by `{}` before the decoder sees it. For answers that are not valid the clients fail in different ways
-  (`C14_invalid_answer_witness`). The harness component `rpcclients` drives the three real clients against peers giving the
+  (`C14_invalid_answer_witness`). The theorems speak about the answer as it is ON THE WIRE: every transport first decodes
+  the whole answer into Go values (numbers: float64) and hands the decoder `json.Marshal` of the decoded result —
+  `C14_clients_same_numbers`: all four hand the decoder the same value, `C14_float64_edge_witness`: 2^53 + 1 arrives as
+  2^53 everywhere. The harness component `rpcclients` drives the three real clients against peers giving the
   same answers (large ones included) and compares the returned values pairwise.
 -/
 import Mcp.Lemmas.Rpc
@@ -162,22 +165,61 @@ example :
 
 open Mcp.RpcClient in
 /-- The Streamable client reading a JSON body, the Streamable client reading a POST answered as an SSE stream, the legacy
-    SSE client and the stdio client return the same value for the same valid answer: for every decoder `D` that treats `null`
-    like `{}`, every success answer (any result) and every error answer. -/
-theorem C14_clients_equal {α : Type} (D : Json → α) (hnull : D .null = D (.obj [])) (o : Obj)
-    (hv : successAnswer o ∨ errorAnswer o) :
-    finish D (recvPostSSE (.obj o)) = finish D (recvHTTP (.obj o)) ∧ finish D (recvStdio (.obj o)) = finish D (recvHTTP (.obj o)) := by
+    SSE client (which extracts exactly like the first) and the stdio client return the same value for the same valid answer AS IT IS ON THE WIRE (`w`: any number
+    literals, duplicate members): for every decoder `D` that treats `null` like `{}`, every answer that Go can decode
+    (`wireDecode w = some (.obj o)`: numbers a float64 can hold) and that is a success answer (any result) or an error
+    answer. -/
+theorem C14_clients_equal {α : Type} (D : Json → α) (hnull : D .null = D (.obj [])) (w : Json) (o : Obj)
+    (hd : wireDecode w = some (.obj o)) (hv : successAnswer o ∨ errorAnswer o) :
+    finish D (recvPostSSE w) = finish D (recvHTTP w) ∧ finish D (recvStdio w) = finish D (recvHTTP w) ∧
+    recvLegacySSE w = recvHTTP w := by
+  have hl : recvLegacySSE w = recvHTTP w := by simp only [recvLegacySSE, recvHTTP, hd]
+  simp only [recvPostSSE, recvHTTP, recvStdio, hd]
   rcases hv with ⟨hj, ⟨i, hi, hn⟩, he, hr⟩ | ⟨hj, ⟨i, hi, hn⟩, e, c, m, he, hc, hm⟩
   · have : ∃ r, lookup o t!"result" = some r := by
       simp [hasKey] at hr; exact Option.isSome_iff_exists.mp (by simpa [Option.isSome_iff_ne_none] using hr)
     obtain ⟨r, hres⟩ := this
     have hel : lookup o t!"error" = none := by simpa [hasKey] using he
-    constructor
-    · simp [recvPostSSE, recvHTTP, hasKey, hel, hres]
-    · cases r <;> simp [recvStdio, recvHTTP, hj, hi, hn, hel, hres, finish, isErrorResponse, hasKey, lookup, hnull]
-  · constructor
-    · simp [recvPostSSE, recvHTTP, hasKey, he]
-    · simp [recvStdio, recvHTTP, hj, hasKey, hi, hn, he, errorDecodes, hc, hm]
+    refine ⟨?_, ?_, by simpa only [recvHTTP, hd] using hl⟩
+    · simp [recvPostSSEDecoded, recvHTTPDecoded, hasKey, hel, hres]
+    · cases r <;> simp [recvStdioDecoded, recvHTTPDecoded, hj, hi, hn, hel, hres, finish, isErrorResponse, hasKey, lookup, hnull]
+  · refine ⟨?_, ?_, by simpa only [recvHTTP, hd] using hl⟩
+    · simp [recvPostSSEDecoded, recvHTTPDecoded, hasKey, he]
+    · simp [recvStdioDecoded, recvHTTPDecoded, hj, hasKey, hi, hn, he, errorDecodes, hc, hm]
+
+open Mcp.RpcClient in
+/-- Numbers: all four paths hand the decoder the SAME VALUE — the result as Go decoded it (`wireDecode`: every number the
+    float64 nearest to the literal on the wire), not the bytes that arrived; stdio alone replaces `null` by `{}`. So a typed
+    field (`size`, `priority`) and an untyped position (`structuredContent`, `_meta`, `experimental`) receive the same
+    number whichever transport carried the answer. -/
+theorem C14_clients_same_numbers (w : Json) (o : Obj) (r : Json) (hd : wireDecode w = some (.obj o)) (hs : successAnswer o)
+    (hr : lookup o t!"result" = some r) :
+    (match recvHTTP w with | .raw x => x = r | _ => False) ∧ (match recvPostSSE w with | .raw x => x = r | _ => False) ∧
+    (match recvStdio w with | .raw x => x = (match r with | .null => .obj [] | y => y) | _ => False) ∧
+    (match recvLegacySSE w with | .raw x => x = r | _ => False) := by
+  obtain ⟨hj, ⟨i, hi, hn⟩, he, _⟩ := hs
+  have hel : lookup o t!"error" = none := by simpa [hasKey] using he
+  simp only [recvPostSSE, recvHTTP, recvStdio, recvLegacySSE, hd]
+  refine ⟨by simp [recvHTTPDecoded, hasKey, hel, hr], by simp [recvPostSSEDecoded, hasKey, hel, hr], ?_, by simp [recvHTTPDecoded, hasKey, hel, hr]⟩
+  cases r <;> simp [recvStdioDecoded, hj, hi, hn, hel, hr, hasKey]
+
+open Mcp.RpcClient in
+/-- …witness at the float64 edge: `"size": 9007199254740993` (2^53 + 1) reaches the decoder as 9007199254740992 on every
+    path, `12.0` as 12.0, and `1e400` makes the answer undecodable everywhere (the three transports then fail in their three
+    ways — outside the statement). -/
+theorem C14_float64_edge_witness :
+    let ans (v : Json) : Json := .obj [(t!"jsonrpc", .str t!"2.0"), (t!"id", .int 1), (t!"result", .obj [(t!"size", v)])]
+    let handed (g : Got) : Option Int := match g with | .raw (.obj [(_, .int n)]) => some n | _ => none
+    handed (recvHTTP (ans (.int 9007199254740993))) = some 9007199254740992 ∧
+    handed (recvPostSSE (ans (.int 9007199254740993))) = some 9007199254740992 ∧
+    handed (recvStdio (ans (.int 9007199254740993))) = some 9007199254740992 ∧
+    handed (recvHTTP (ans (.int (-9007199254740993)))) = some (-9007199254740992) ∧
+    handed (recvStdio (ans (.int 9223372036854775807))) = some 9223372036854775808 ∧
+    (match recvHTTP (ans (.int (10 ^ 400))) with | .failed .undecodable => true | _ => false) = true ∧
+    (match recvPostSSE (ans (.int (10 ^ 400))) with | .failed .noFinalResponse => true | _ => false) = true ∧
+    (match recvStdio (ans (.int (10 ^ 400))) with | .failed .timeout => true | _ => false) = true ∧
+    (match recvLegacySSE (ans (.int (10 ^ 400))) with | .failed .timeout => true | _ => false) = true := by
+  decide +kernel
 
 open Mcp.Content in
 /-- The side condition holds for the result decoders of C02's model (tools/call, prompts/get, resources/read, tools/list):
@@ -197,7 +239,7 @@ theorem C14_stdio_null_result_witness :
     (match recvStdio (.obj o) with | .raw (.obj []) => true | _ => false) = true ∧
     (match recvHTTP (.obj o) with | .raw .null => true | _ => false) = true ∧
     (match recvPostSSE (.obj o) with | .raw .null => true | _ => false) = true := by
-  decide
+  decide +kernel
 
 open Mcp.RpcClient in
 /-- Outside the statement (not a valid answer): an id with neither result nor error ends the call in three different ways —
@@ -207,7 +249,7 @@ theorem C14_invalid_answer_witness :
     (match recvHTTP (.obj o) with | .failed .missingResult => true | _ => false) = true ∧
     (match recvPostSSE (.obj o) with | .failed .noFinalResponse => true | _ => false) = true ∧
     (match recvStdio (.obj o) with | .failed .timeout => true | _ => false) = true := by
-  decide
+  decide +kernel
 
 open Mcp.RpcClient in
 /-- non-vacuity: both kinds of valid answer exist, and a JSON-RPC error reaches the caller with its code and message -/
